@@ -570,6 +570,10 @@ int main(int argc, char** argv)
       // first the logging threads complete their calls, THEN the backend gets n full loop iterations
       for (auto& z : Z) if (z.th.joinable()) z.wait();
       X.wait();
+      std::string mode;
+      ss >> mode;
+      // `drain n flush`: every new thread that has logged now calls flush_log(); it must return while the backend keeps running
+      if (mode == "flush") for (auto& z : Z) if (z.th.joinable() && z.committed > 0) z.post(4);
       {
         std::unique_lock<std::mutex> l(s_mx);
         long const r0 = s_rloads;
@@ -577,9 +581,11 @@ int main(int argc, char** argv)
         s_policy = {"1:R:load"};
       }
       { std::unique_lock<std::mutex> l(s_mx); s_cv.wait(l, [] { return s_parked_at[1]; }); }      // parked again: its state can be read
+      long stuck = 0;
+      for (auto& z : Z) if (z.th.joinable()) { std::lock_guard<std::mutex> l(z.mx); if (!z.ack) ++stuck; }
       emit("{\"e\":\"quiet\",\"cache\":" + std::to_string(cache_size()) + ",\"delivered\":" + std::to_string(g_delivered.load()) +
            ",\"zlogged\":" + std::to_string(Z[0].committed + Z[1].committed) + ",\"drops\":" + std::to_string(s_xdrops) +
-           ",\"reported\":" + std::to_string(g_reported.load()) + ",\"xcalls\":" + std::to_string(X.committed) + "}");
+           ",\"reported\":" + std::to_string(g_reported.load()) + ",\"xcalls\":" + std::to_string(X.committed) + ",\"flushstuck\":" + std::to_string(stuck) + "}");
     }
     else if (c == "end") break;
   }
